@@ -14,4 +14,14 @@ r = subprocess.run([sys.executable, "-c",
                     "print('bootstrap ok, fresh rng:', B.FRESH_RNG_OK)" % ROOT],
                    capture_output=True, text=True)
 print(r.stdout.strip().splitlines()[-1] if r.stdout.strip() else r.stderr[-500:])
-sys.exit(r.returncode)
+if r.returncode:
+    sys.exit(r.returncode)
+# pre-build the STRL driver (C20 rebuilds it itself whenever the sources change)
+try:
+    sys.path.insert(0, ROOT)
+    from vf import strl
+
+    print("strl driver:", strl.build_driver())
+except Exception as e:  # noqa: B902
+    print("strl driver could not be pre-built:", e)
+sys.exit(0)
